@@ -253,7 +253,7 @@ def sample_view(case, ctx):
 def main(seed, tier, args):
     import sys
 
-    n = args.cases or (500 if tier == "quick" else 20000)
+    n = args.cases or (1200 if tier == "quick" else 25000)
     budget = args.budget or (100 if tier == "quick" else 900)
     rc, ev = engine.run_batch(sys.modules[__name__], seed, tier, n, budget)
     c = ev["coverage"]
